@@ -1,6 +1,6 @@
 (* C12 — partition consumer: every run's observable trace is accepted by the observer automaton. *)
 From Coq Require Import List Arith Bool Lia.
-From SV Require Import C12.Lts C12.LtsProofs C12.Tac C12.PCons C12.PConsProofs C12.PConsSafety C12.PConsSim C12.PConsSim1 C12.PConsSim2.
+From SV Require Import C12.Lts C12.LtsProofs C12.Tac C12.PCons C12.PConsProofs C12.PConsSafety C12.PConsSim C12.PConsSim_01 C12.PConsSim_02.
 Import ListNotations.
 
 Module PCA.
